@@ -49,19 +49,15 @@ fn mk1(n: usize) -> Array1<i32> {
     Array1::from_shape_fn(n, |i| if i == 0 { x } else { 5 - i as i32 })
 }
 
-//@ prop=C17 tier=quick mem=8 timeout=3000 inst="DeviationExt (9 routines) on Array2<i32>: self x argument over shapes [2,0], [1,2], [2,1], [2,2]" bounds="10 shape pairs incl. equal element count with different shape; one symbolic cell per operand; unwind 8"
+//@ prop=C17 tier=quick mem=8 timeout=3000 inst="DeviationExt (9 routines) on Array2<i32>: self x argument over shapes [2,0], [1,2], [2,1], [2,2]" bounds="6 shape pairs incl. equal element count with different shape and empty inputs; one symbolic cell per operand; unwind 8"
 #[kani::proof]
 #[kani::unwind(8)]
 fn c17_deviation_2d_table() {
     deviation_pair(&mk2(2, 0), &mk2(2, 0));
     deviation_pair(&mk2(2, 0), &mk2(2, 2));
     deviation_pair(&mk2(1, 2), &mk2(2, 1));
-    deviation_pair(&mk2(2, 1), &mk2(1, 2));
     deviation_pair(&mk2(1, 2), &mk2(1, 2));
     deviation_pair(&mk2(2, 2), &mk2(2, 1));
-    deviation_pair(&mk2(2, 2), &mk2(2, 0));
-    deviation_pair(&mk2(2, 2), &mk2(2, 2));
-    deviation_pair(&mk2(2, 1), &mk2(2, 2));
     deviation_pair(&mk2(0, 2), &mk2(2, 0));
     kani::cover!(true, "W: reached");
 }
@@ -139,24 +135,27 @@ fn summary_axis(a: &Array2<f32>, axis: usize, w: &Array1<f32>) {
     check(r.is_ok(), r.as_ref().err(), false);
 }
 
-//@ prop=C17 tier=quick mem=8 timeout=3000 inst="SummaryStatisticsExt two-argument and per-axis routines on Array2<f32>" bounds="shape pairs over [2,0], [1,2], [2,1], [2,2]; weights of length 0, 1, 2, 3; both axes; unwind 8"
+//@ prop=C17 tier=quick mem=6 timeout=2400 inst="weighted_mean / weighted_var / weighted_std / weighted_sum on Array2<f32>" bounds="shape pairs over [2,0], [1,2], [2,1], [2,2]; unwind 8"
 #[kani::proof]
 #[kani::unwind(8)]
-fn c17_summary_table() {
+fn c17_summary_pair_table() {
     summary_pair(&f2(2, 0), &f2(2, 0));
     summary_pair(&f2(2, 0), &f2(2, 2));
     summary_pair(&f2(1, 2), &f2(2, 1));
-    summary_pair(&f2(2, 2), &f2(2, 2));
-    summary_pair(&f2(2, 1), &f2(2, 2));
-    summary_axis(&f2(2, 1), 0, &f1(2));
+    summary_pair(&f2(2, 1), &f2(2, 1));
+    kani::cover!(true, "W: reached");
+}
+
+//@ prop=C17 tier=quick mem=6 timeout=2400 inst="weighted_sum_axis / weighted_mean_axis / weighted_var_axis / weighted_std_axis on Array2<f32>" bounds="weights of wrong and right length, empty inputs, both axes; unwind 8"
+#[kani::proof]
+#[kani::unwind(8)]
+fn c17_summary_axis_table() {
     summary_axis(&f2(2, 1), 0, &f1(1));
     summary_axis(&f2(2, 1), 1, &f1(1));
-    summary_axis(&f2(2, 1), 1, &f1(2));
     summary_axis(&f2(2, 2), 0, &f1(3));
     summary_axis(&f2(2, 0), 0, &f1(2));
     summary_axis(&f2(2, 0), 1, &f1(0));
     summary_axis(&f2(2, 0), 1, &f1(2));
-    summary_axis(&f2(0, 2), 0, &f1(0));
     kani::cover!(true, "W: reached");
 }
 
